@@ -5,6 +5,7 @@ import (
 	"encoding/json"
 	"fmt"
 	"os"
+	"runtime/pprof"
 	"strconv"
 
 	"verif/harness/checks"
@@ -72,6 +73,13 @@ func main() {
 		os.Exit(2)
 	}
 	c := vk.NewCtx(id, tier, seed, ch.Level)
+	if pf := os.Getenv("VERIF_CPUPROFILE"); pf != "" {
+		f, err := os.Create(pf)
+		if err == nil {
+			_ = pprof.StartCPUProfile(f)
+		}
+	}
 	ch.Run(c)
+	pprof.StopCPUProfile()
 	os.Exit(c.Finish())
 }
